@@ -122,6 +122,24 @@ func typeKey(t types.Type) (pkgName, name string) {
 	return "", ""
 }
 
+// typeID names a named type uniquely across the two modules (v1 and v2 have packages of
+// the same name).
+func typeID(n *types.Named) string {
+	o := n.Obj()
+	if o.Pkg() == nil {
+		return sane(o.Name())
+	}
+	p := o.Pkg().Path()
+	if strings.HasPrefix(p, modRoot+"/") {
+		p = strings.TrimPrefix(p, modRoot+"/")
+	} else if p == modRoot {
+		p = "root"
+	} else if i := strings.LastIndex(p, "/"); i >= 0 {
+		p = p[i+1:]
+	}
+	return sane(p) + "_" + sane(o.Name())
+}
+
 func isTimeTime(t types.Type) bool {
 	if n, ok := types.Unalias(t).(*types.Named); ok {
 		return n.Obj().Pkg() != nil && n.Obj().Pkg().Path() == "time" && n.Obj().Name() == "Time"
@@ -169,8 +187,7 @@ func (w *World) sortOf(t types.Type) string {
 func (w *World) structSort(n *types.Named, st *types.Struct) string {
 	name := "DT_anon"
 	if n != nil {
-		p, k := typeKey(n)
-		name = "DT_" + sane(p) + "_" + sane(k)
+		name = "DT_" + typeID(n)
 	} else {
 		name = "DT_" + sane(st.String())
 	}
